@@ -83,7 +83,10 @@ func runC10(o *hx.Out, r *hx.Rand, thorough bool) {
 		return h(srv, ss)
 	}
 	// every call gets its own channel whose handler runs f; the call waits for the handler to finish
+	var callCreds map[string]string // per-RPC credentials of the outermost call, when it has them
 	callWith := func(ctx context.Context, method string, stream bool, f func(context.Context)) {
+		creds := callCreds
+		callCreds = nil
 		c := &inprocgrpc.Channel{}
 		if withInt {
 			c.WithServerUnaryInterceptor(passU).WithServerStreamInterceptor(passS)
@@ -95,7 +98,7 @@ func runC10(o *hx.Out, r *hx.Rand, thorough bool) {
 			Unary:  func(hctx context.Context, req *hx.Msg) (*hx.Msg, error) { defer fin(); f(hctx); return &hx.Msg{}, nil },
 			Stream: func(kind string, ss grpc.ServerStream) error { defer fin(); f(ss.Context()); return nil },
 		})
-		callInproc(c, ctx, method, stream)
+		callInproc(c, ctx, method, stream, creds)
 		select {
 		case <-done:
 		case <-time.After(3 * time.Second):
@@ -208,11 +211,31 @@ func runC10(o *hx.Out, r *hx.Rand, thorough bool) {
 		var s seenT
 		ran := false
 		lastOutMD = nil
+		var creds map[string]string
+		credLayer := ""
+		if r.Chance(30) {
+			creds = []map[string]string{{}, {"cred": "tok"}, {"k1": "from-cred", "cred": "tok"}, {"k2": "c", "k1": "c"}}[r.Intn(4)]
+		}
 		withCtx(e, func(callerCtx context.Context) {
 			// mutation probe material: the caller's own outgoing metadata object (not a copy of it)
 			callerMD := lastOutMD
 			if callerMD == nil {
 				callerMD = metadata.MD{}
+			}
+			if creds != nil {
+				callCreds = creds
+			}
+			if len(creds) > 0 {
+				// credentials are one more layer of outgoing metadata: the caller's own, with theirs appended
+				// (credentials that contribute nothing leave the context as it is)
+				merged := metadata.MD{}
+				if own, ok := metadata.FromOutgoingContext(callerCtx); ok {
+					merged = own.Copy()
+				}
+				for k, v := range creds {
+					merged[k] = append(merged[k], v)
+				}
+				credLayer = "LOutMD " + mdTerm(merged)
 			}
 			callWith(callerCtx, method, stream, func(hctx context.Context) {
 				ran = true
@@ -309,8 +332,15 @@ func runC10(o *hx.Out, r *hx.Rand, thorough bool) {
 			kind = "stream"
 		}
 		kind += fmt.Sprintf("_depth%d", depth)
+		ecoq := e.coq()
+		if credLayer != "" {
+			ecoq = "(With (" + credLayer + ") " + ecoq + ")"
+		}
+		if creds != nil {
+			desc["per_rpc_credentials"] = creds
+		}
 		term := fmt.Sprintf("CtxCase %s %s %s {| user := %s; inmd := %s; outmd := %s; peer := %s; sts := %s; dl := %s; done := %s; cuser := %s; client_ok := %s; mutation_isolated := %s |}",
-			hx.Str(kind), e.coq(), hx.Str(method), hx.List(s.user), s.inmd, s.outmd, s.peerT, s.sts, s.dl, hx.B(s.done), hx.List(s.cuser), hx.B(s.clientOK), hx.B(s.isolated))
+			hx.Str(kind), ecoq, hx.Str(method), hx.List(s.user), s.inmd, s.outmd, s.peerT, s.sts, s.dl, hx.B(s.done), hx.List(s.cuser), hx.B(s.clientOK), hx.B(s.isolated))
 		if !s.isolated {
 			o.Violate("mutating metadata on one side was visible on the other", desc, "shared", "isolated")
 		}
@@ -320,12 +350,23 @@ func runC10(o *hx.Out, r *hx.Rand, thorough bool) {
 	_ = sort.Strings
 }
 
-func callInproc(ch *inprocgrpc.Channel, ctx context.Context, method string, stream bool) {
+type mapCreds map[string]string
+
+func (m mapCreds) GetRequestMetadata(context.Context, ...string) (map[string]string, error) {
+	return m, nil
+}
+func (mapCreds) RequireTransportSecurity() bool { return false }
+
+func callInproc(ch *inprocgrpc.Channel, ctx context.Context, method string, stream bool, creds map[string]string) {
+	var opts []grpc.CallOption
+	if creds != nil {
+		opts = append(opts, grpc.PerRPCCredentials(mapCreds(creds)))
+	}
 	if !stream {
-		ch.Invoke(ctx, method, &hx.Msg{}, &hx.Msg{})
+		ch.Invoke(ctx, method, &hx.Msg{}, &hx.Msg{}, opts...)
 		return
 	}
-	cs, err := ch.NewStream(ctx, hx.StreamDescOf("BD"), method)
+	cs, err := ch.NewStream(ctx, hx.StreamDescOf("BD"), method, opts...)
 	if err != nil {
 		return
 	}
